@@ -215,6 +215,9 @@ func checkC03(c *hx.Ctx) {
 	}
 	// histories of two DIDs anchored through the REAL batch files (handler, CAS, provider, transaction processor)
 	chainsThroughBatchFiles(c, c.N(60, 1200))
+	c03ThroughObserver(c)
+	c.Floor("histories_through_the_observer", 40)
+	c.Floor("notifications_mixing_protocol_versions", 15)
 	c.Floor("batch_file_rounds", 100)
 	c.Floor("state_leak_probes", 3)
 	// floors
